@@ -1544,7 +1544,6 @@ impl TestTextSelection for TextSelectionSet {
             | TextSelectionOperator::SameRange { negate: true, .. } => {
                 !self.test(&operator.toggle_negate(), reftextsel, resource)
             }
-            _ => unreachable!("unknown operator+modifier combination"),
         }
     }
 
@@ -1699,7 +1698,6 @@ impl TestTextSelection for TextSelectionSet {
             | TextSelectionOperator::SameRange { negate: true, .. } => {
                 !self.test_set(&operator.toggle_negate(), refset, resource)
             }
-            _ => unreachable!("unknown operator+modifier combination"),
         }
     }
 }
@@ -1827,7 +1825,6 @@ impl TestTextSelection for TextSelection {
             | TextSelectionOperator::SameRange { negate: true, .. } => {
                 !self.test(&operator.toggle_negate(), reftextsel, resource)
             }
-            _ => unreachable!("unknown operator+modifier combination"),
         }
     }
     /// This method is called to test whether a specific spatial relation (as expressed by the
@@ -2037,7 +2034,6 @@ impl TestTextSelection for TextSelection {
             | TextSelectionOperator::SameRange { negate: true, .. } => {
                 !self.test_set(&operator.toggle_negate(), refset, resource)
             }
-            _ => unreachable!("unknown operator+modifier combination"),
         }
     }
 }
